@@ -20,6 +20,9 @@ def main():
             t = time.time()
             extract.run_config(cfg, out, nonce)
             print("cfg %s primed (%.0fs)" % (cfg, time.time() - t))
+        t = time.time()
+        extract.frame_sizes()
+        print("object-code cache primed (%.0fs)" % (time.time() - t))
     finally:
         shutil.rmtree(out, ignore_errors=True)
     print("setup done in %.0fs" % (time.time() - t0))
